@@ -241,6 +241,12 @@ pub fn replay(input: &str, output: &str) {
         if id % 16 == 0 {
             let mut faults: Vec<(&str, String)> = Vec::new();
             let first = format!("name=\"{}\"", joint_names(line["naming"].as_str().unwrap(), "lf")[2]);
+            // (the third joint, and in turn the first and the sixth: a description without joint 6 is not a robot either)
+            for (tag, j) in [("missing-joint-1", 0usize), ("missing-joint-6", 5)] {
+                let nm = format!("name=\"{}\"", joint_names(line["naming"].as_str().unwrap(), "lf")[j]);
+                let nm2 = nm.replacen("name=\"", "name=\"r2_", 1);
+                faults.push((tag, xml.replace(&nm, "name=\"somethingelse\"").replace(&nm2, "name=\"somethingelse\"")));
+            }
             let second = first.replacen("name=\"", "name=\"r2_", 1);
             faults.push(("missing-joint", xml.replacen(&first, "name=\"somethingelse\"", if line["copies"] == "identical-duplicate" || line["copies"] == "duplicate-other-prefix" { 2 } else { 1 })
                 .replacen(&second, "name=\"somethingelse\"", 1)));
